@@ -9,6 +9,7 @@ from ..window import Window, lin, form, show_form, guard_ops, TOP, is_top
 from .c15 import asg, key_of, _reach_until_ret, handler_covers
 
 TITLE = "DNS messages decode exactly or are rejected; cached answers honour TTL"
+TECHNIQUE = 'cursor-window abstract interpretation of every DNS decode function (checkBounds idiom, symbolic 8/16-bit lengths) and constant-index reads behind dominating size tests; dominance rules for pointer range / visited set; handler coverage; table agreement between DnsResult and the minimum-TTL computation; must-store of the fresh expiration'
 DM = "iora::network::dns::DnsMessage"
 DC = "iora::network::dns::DnsCache"
 DT = "iora::network::dns::DnsTransport"
